@@ -246,8 +246,12 @@ class StateSystem(CoupledSystem):
                     data[k] = v
         return data
 
-    def total_derivatives(self, inputs, of=None, wrt=None):
-        """Implicit-function derivatives over the unknowns (couplings, states); dense numpy."""
+    def total_derivatives(self, inputs, of=None, wrt=None, drop_state_partials_of_functions=False):
+        """Implicit-function derivatives over the unknowns (couplings, states); dense numpy.
+
+        ``drop_state_partials_of_functions=True`` gives the *wrong* model in which the term
+        ``dF/dw . dw/dx`` of the requested functions is lost (used only to recognise that mechanism).
+        """
         if not self.has_states:
             return super().total_derivatives(inputs, of=of, wrt=wrt)
         sol = self.solve(inputs)
@@ -279,15 +283,18 @@ class StateSystem(CoupledSystem):
                 K[r, r] -= np.eye(self.sizes[nm])
         dU = np.linalg.solve(K, -Kx)
         out = {}
+        drop = drop_state_partials_of_functions
         for o in of:
-            if o in unknowns:
+            if o in unknowns and not drop:
                 k = unknowns.index(o)
                 tot = dU[off[k]:off[k + 1], :]
-            elif o in self.residuals:
+            elif o in self.residuals and not drop:
                 tot = np.zeros((self.sizes[o], woff[-1]))
             else:
                 tot = np.zeros((self.sizes[o], woff[-1]))
                 for inm, J in parts[o].items():
+                    if drop and inm in self.states:
+                        continue
                     if inm in unknowns:
                         kk = unknowns.index(inm)
                         tot = tot + J @ dU[off[kk]:off[kk + 1], :]
